@@ -168,7 +168,13 @@ func writeEvidence(g *Gen, path, prop, tier string, seed int, obs, failed, known
 	if brs, ok := boundedResults[prop].([]map[string]any); ok {
 		for _, br := range brs {
 			if v, _ := br["violations"].(float64); v > 0 {
-				nb++
+				classes, _ := br["violation_classes"].(map[string]any)
+				for cl := range classes {
+					if _, isKnown := knownBy["bounded."+fmt.Sprint(br["name"])+"#"+cl]; !isKnown {
+						nb++
+						break
+					}
+				}
 			}
 		}
 	}
